@@ -6,6 +6,8 @@
 (*   {"ev":"set", "post":S}            resynchronise the abstract state    *)
 (*   {"ev":"Emit", "post":S}           a front-end emitted the machine the *)
 (*                                     preceding "set" describes (C16)     *)
+(*   {"ev":"Netlist", "post":NL}       the generated top-level Verilog of  *)
+(*                                     that machine read back as wiring    *)
 (*   {"ev":<edit>, args..., "post":S}  one API call and the state the real *)
 (*                                     object had after it                 *)
 (* where S = [nin, nout, procs, doms, iin, ion, links, bonds] is read from *)
@@ -69,6 +71,21 @@ TSaveLoad   == IsEvent("SaveLoad")   /\ ASaveLoad                 /\ Judge(Trace
 \* a front-end emitted the machine described (on names) by the preceding "set": the emitted object
 \* must be that machine and be well formed (C16)
 TEmit       == IsEvent("Emit")       /\ UNCHANGED avars           /\ Judge(Trace[l].post)
+\* the generated top-level Verilog of the machine described by the preceding "set" was read back
+\* as a netlist (C02): nl.bonds / nl.vbonds are the <<source, sink>> name pairs joined by the data
+\* and the valid wiring, nl.rbonds says for every source which sinks' received lines are and-ed
+\* into its own; all three must be exactly the bonds of the machine
+NameBonds == {<<NameStr(b[1]), NameStr(b[2])>> : b \in bonds}
+NetDiff(nl) ==
+  CASE nl.problem # "" -> "netlist:" \o nl.problem
+    [] ToSet(nl.bonds) # NameBonds -> "netlist:data-wiring-differs-from-bonds"
+    [] ToSet(nl.vbonds) # NameBonds -> "netlist:valid-wiring-differs-from-bonds"
+    [] ToSet(nl.rbonds) # NameBonds -> "netlist:received-is-not-the-conjunction-of-the-bonded-sinks"
+    [] OTHER -> ""
+TNetlist ==
+  /\ IsEvent("Netlist") /\ UNCHANGED avars
+  /\ err' = IF err # "" THEN err ELSE NetDiff(Trace[l].post)
+  /\ (err = "" /\ err' # "") => PrintT(<<"REJECT", l, err'>>)
 \* DelBond is addressed by link slot; dname is the name the real object gave that slot before
 \* the call ("" when the slot does not exist: the call must fail and change nothing).
 TDelBond ==
@@ -84,7 +101,7 @@ TraceInit ==
 
 TraceNext ==
   \/ TSet \/ TAddInput \/ TAddOutput \/ TDelInput \/ TDelOutput \/ TAddProc
-  \/ TAddBond \/ TAttachBC \/ TDelBond \/ TSaveLoad \/ TEmit
+  \/ TAddBond \/ TAttachBC \/ TDelBond \/ TSaveLoad \/ TEmit \/ TNetlist
 
 TraceSpec == TraceInit /\ [][TraceNext]_tvars
 
